@@ -929,8 +929,28 @@ theorem gen_table_untrack (env : T.Atom → Bool) (cfg : Cfg) (s : State) (c : N
 theorem gen_table_recover (cfg : Cfg) (s : State) (c : Nat) :
     T.recoverT Gen.Sem.recover cfg s c = some (recover cfg s c) := T.recoverT_eq cfg s c
 
+/-- `Tracker.Status(c)` — the function every clause reads — as a regenerated decision tree (table entry / state unreadable / not in the
+    pinset / meta / remote / `PinLsCid` failed / daemon says unpinned / else the daemon's status): executed on ANY model state, with the
+    daemon's reads working or not, it is the model's `statusR` (= `statusOf` when they work). -/
+theorem gen_table_status (s : State) (ls : Bool) (c : Nat) :
+    T.statusTbl Gen.Sem.status s ls c = some (statusR s ls c) ∧ T.statusTbl Gen.Sem.status s true c = some (statusOf s c) := by
+  refine ⟨T.statusTbl_eq s ls c, ?_⟩
+  rw [T.statusTbl_eq, statusR_true]
+
+/-- ... and when the shared state cannot be read (outside the model's runs) a cid without table entry reads cluster_error — an error
+    status, never a healthy one; `addError` is `Status := cluster_error`. -/
+theorem gen_table_status_stateErr (s : State) (ls : Bool) (c : Nat) (a b : Bool) (h : s.cur c = none) (hab : (a && b) = false)
+    (hp : ∃ p, s.shared c = some p) (env : T.Atom → Bool) :
+    T.statusTbl Gen.Sem.status s ls c a b = some .clusterError ∧
+    T.firstRow Gen.Sem.addError env = some [.setStatus .clusterError, .retVoid] :=
+  ⟨T.statusTbl_stateErr s ls c a b h hab hp, T.addError_table env⟩
+
 theorem gen_table_known_c :
-    (T.known Gen.Sem.enqueue && T.known Gen.Sem.track && T.known Gen.Sem.untrack && T.known Gen.Sem.recover) = true := T.tables_known_c
+    (T.known Gen.Sem.enqueue && T.known Gen.Sem.track && T.known Gen.Sem.untrack && T.known Gen.Sem.recover &&
+     T.known Gen.Sem.status && T.known Gen.Sem.addError) = true := T.tables_known_c
+
+example : T.statusTbl Gen.Sem.status k06Run true 0 = some .pinError := by decide
+example : T.statusTbl Gen.Sem.status k06Run false 0 = some .clusterError := by decide
 
 /-- a realistic wrong edit of `enqueue` as a table: the full-queue branch returns `ErrFullQueue` but does not `SetError` (the refused
     operation stays `pin_queued` for ever — `full_queue_reported` fails). It is NOT `enqueue`: queue size 0, first Track. -/
